@@ -907,6 +907,26 @@ def run_case(case):
     _G["case_tag"] = hashlib.blake2b(_json.dumps(case, sort_keys=True).encode(), digest_size=6).hexdigest()
     out = {"n": 0, "ops": 0, "states": [], "classes": [], "notes": [], "viol": [], "nontrivial": [], "summary": []}
     fam = case["fam"]
+    _G["via_files"] = False
+    # Primer: before its own files every case parses a fixed set of files that, together, contain every (element, class, transition /
+    # charge / block) any file of its family can contain; what these parses return is NOT judged.  A parser that keeps anything between
+    # calls is then in the same saturated state in a pool worker (which has served other cases) and in the fresh process that confirms a
+    # violation, so a violation on the case's own files reproduces alone.
+    prim = []
+    if fam == "adf15":
+        prim = [("adf15", dict(NEUTRAL15, sty=sty, nne=9, nte=7, nblocks=12, types=types)) for sty in sorted(A15["sty"]) for types in A15["types"]]
+    elif fam == "adf11":
+        prim = [("adf11", dict(NEUTRAL11, cfg=cfg, layout=layout, nne=9, nte=7)) for cfg, layout in (("Ne10", "96"), ("C6", "rm"), ("H1", "89"), ("C2", "r1"))]
+    elif fam == "adf12":
+        prim = [("adf12", dict(NEUTRAL12, nblocks=3, nbeam=7, nti=6))]
+    elif fam == "adf2x":
+        prim = [("adf2x", dict(NEUTRAL21, entry=entry, neb=9, ndt=7, ntt=9)) for entry in A21["entry"]]
+    for pf, f in prim:
+        try:
+            FAMILIES[pf][0](f, with_install=False)
+        except Exception:  # noqa
+            pass
+        out["ops"] += 1
     if fam == "adf11":
         for layout, trailer, te0 in itertools.product(A11["layout"], A11["trailer"], A11["te0"]):
             f = {"cfg": case["cfg"], "layout": layout, "nne": case["nne"], "nte": case["nte"], "te0": te0, "trailer": trailer}
